@@ -21,7 +21,7 @@ KNOWN_MNEMONICS = {
             "movaps", "movups", "vmovaps", "vmovups", "movapd", "movupd", "vmovapd", "vmovupd", "movdqa", "movdqu",
             "vmovdqa", "vmovdqu", "vmovdqa32", "vmovdqu32", "vmovdqa64", "vmovdqu64", "kmovb", "kmovw", "kmovd", "kmovq",
             "movq", "movd", "vmovq", "vmovd"},
-    "a64": {"stp", "ldp", "str", "ldr", "mov", "add", "sub", "ret", "bti", "nop"},
+    "a64": {"stp", "ldp", "str", "ldr", "mov", "add", "sub", "and", "ret", "bti", "nop"},
 }
 
 
